@@ -225,7 +225,7 @@ class State:
 
 class SymEval:
     def __init__(self, ce: ConstEval, func: FuncInfo, bind: dict | None = None, override=None, unroll: int = 0,
-                 modenv: dict | None = None, selfname: str | None = None, uid_base: int = 0, frozen_fields=(), on_index=None, inline=None):
+                 modenv: dict | None = None, selfname: str | None = None, uid_base: int = 0, frozen_fields=(), on_index=None, inline=None, param_len=None, len_hook=None):
         self.ce = ce
         self.func = func
         self.modenv = modenv if modenv is not None else ce.module_env(func.module)
@@ -237,6 +237,8 @@ class SymEval:
         self.frozen_fields = frozenset(frozen_fields)
         self.on_index = on_index
         self.inline = inline  # callable(call node, callee term, caller FuncInfo) -> FuncInfo to inline, or None
+        self.len_hook = len_hook  # callable(term) -> exact length of an atomic byte-string source (or None); supplied by rules that assume a read contract
+        self.param_len = dict(param_len or {})  # parameter -> exact len(), known from every call site (byte strings handed to private methods)
         self._inline_stack = []  # [(FuncInfo, returns list)]
         self._lid_prefix = ""
         self._loops: list = []
@@ -1122,6 +1124,11 @@ class SymEval:
                 except Exception:
                     return top("slice raises")
             return ("slice", base, idx[1], idx[2], idx[3])
+        if is_const(idx) and isinstance(idx[1], int) and not isinstance(idx[1], bool) and idx[1] >= 0 and base[0] == "bin" and base[1] == "+":
+            # (a + b)[k] with len(a) known: a[k] or b[k - len(a)]
+            la = self._static_len(base[2])
+            if la is not None:
+                return self.index(base[2], idx) if idx[1] < la else self.index(base[3], const(idx[1] - la))
         if is_const(idx):
             if is_const(base):
                 try:
@@ -1148,6 +1155,20 @@ class SymEval:
                 self.format_tables.append((len(seq), idx, fmt[0], fmt[1]))
                 return ("fstr", (const(fmt[0]), ("fmt", idx, fmt[1], -1)))
         return ("idx", base, idx)
+
+    def _static_len(self, t):
+        if is_const(t) and isinstance(t[1], (bytes, str, tuple)):
+            return len(t[1])
+        if self.len_hook is not None:
+            n = self.len_hook(t)
+            if isinstance(n, int):
+                return n
+        if t[0] == "param" and t[1] in self.param_len and not self._inline_stack:
+            return self.param_len[t[1]]
+        if t[0] == "bin" and t[1] == "+":
+            a, b = self._static_len(t[2]), self._static_len(t[3])
+            return a + b if a is not None and b is not None else None
+        return None
 
     def binop(self, sym, a, b):
         if sym == "+" and a[0] == b[0] and a[0] in ("list", "tuple"):
@@ -1338,6 +1359,8 @@ class SymEval:
                 return self.lift(PURE_BUILTINS[f[1]](*[a[1] for a in args]))
             except Exception:
                 pass
+        if f[0] == "builtin" and f[1] == "len" and len(args) == 1 and not kwargs and (args[0][0] in ("param", "bin")) and self._static_len(args[0]) is not None:
+            return const(self._static_len(args[0]))
         if f[0] == "builtin" and f[1] == "len" and len(args) == 1 and args[0][0] == "gval":
             return const(len(args[0][1].v))
         if f[0] == "builtin" and f[1] == "len" and len(args) == 1 and args[0][0] == "tuple":
